@@ -21,12 +21,25 @@ Definition vclose (a b : vec Qc) : bool := qclose (vx a) (vx b) && qclose (vy a)
 Definition zl_eqb := list_eqb Z.eqb.
 Definition zll_eqb := list_eqb zl_eqb.
 
+(* every container of a mesh as the implementation shows it: edges, faces, cells, corner tables, class *)
+Definition info : Type := (list (list Z) * list (list Z) * list (list Z) * corners * Z)%type.
+Definition info_of (o : obj) : info := (oedges o, ofaces o, occells o, ocorn o, okind o).
+Definition corn_eqb (a b : corners) : bool :=
+  zl_eqb (fce a) (fce b) && zl_eqb (fca a) (fca b) && zl_eqb (cce a) (cce b) && zl_eqb (cca a) (cca b)
+  && zl_eqb (cfe a) (cfe b) && zl_eqb (cfa a) (cfa b).
+Definition info_eqb (a b : info) : bool :=
+  let '(e1, f1, c1, n1, k1) := a in let '(e2, f2, c2, n2, k2) := b in
+  zll_eqb e1 e2 && zll_eqb f1 f2 && zll_eqb c1 c2 && corn_eqb n1 n2 && Z.eqb k1 k2.
+(* the containers observed on a newly created object: given in full, or "identical to what was observed on object i
+   when it was created" (the harness found the two observations equal), or nothing to compare (the op carries them) *)
+Inductive newobs := NewFull (i : info) | NewSame (i : nat) | NewNone.
+
 (* what the implementation showed after one step: the objects whose coordinates changed (or that are new), the
-   canonical buffer classes of all slots, and the elements/class of a newly created object *)
+   canonical buffer classes of all slots, and the containers of a newly created object *)
 Record obs := mkobs {
   o_changed : list (nat * list (vec Qc));
   o_cls : option (list Z);        (* None: the same classes as after the previous step *)
-  o_new : option (list (list Z) * list (list Z) * list (list Z) * Z) }.
+  o_new : newobs }.
 
 Fixpoint patch (snap : list (list (vec Qc))) (ch : list (nat * list (vec Qc))) : list (list (vec Qc)) :=
   match ch with
@@ -44,17 +57,23 @@ Fixpoint all2 {A B} (f : A -> B -> bool) (a : list A) (b : list B) : bool :=
 Definition agree_coords (w : world (T:=Qc)) (snap : list (list (vec Qc))) : bool :=
   all2 (fun o vs => all2 vclose (coords QcO (mheap (wmem w)) o) vs) (wobjs w) snap.
 
-Definition agree_new (w : world (T:=Qc)) (n : option (list (list Z) * list (list Z) * list (list Z) * Z)) : bool :=
-  match n with
-  | None => true
-  | Some (e, f, c, k) =>
-      match rev (wobjs w) with
-      | o :: _ => zll_eqb (oedges o) e && zll_eqb (ofaces o) f && zll_eqb (occells o) c && Z.eqb (okind o) k
-      | [] => false
-      end
+Definition last_info (w : world (T:=Qc)) : option info :=
+  match rev (wobjs w) with o :: _ => Some (info_of o) | [] => None end.
+
+(* returns the observed containers of the new object (to be remembered), or None on disagreement *)
+Definition agree_new (w : world (T:=Qc)) (infos : list info) (n : newobs) (created : bool) : option (list info) :=
+  match n, last_info w with
+  | NewNone, Some i => Some (if created then infos ++ [i] else infos)
+  | NewFull j, Some i => if info_eqb i j then Some (infos ++ [j]) else None
+  | NewSame k, Some i => match nth_error infos k with
+                         | Some j => if info_eqb i j then Some (infos ++ [j]) else None
+                         | None => None end
+  | NewNone, None => Some infos
+  | _, None => None
   end.
 
-Fixpoint check_from (w : world (T:=Qc)) (snap : list (list (vec Qc))) (cls : list Z) (h : list (op (T:=Qc) * obs)) : bool :=
+Fixpoint check_from (w : world (T:=Qc)) (snap : list (list (vec Qc))) (cls : list Z) (infos : list info)
+                    (h : list (op (T:=Qc) * obs)) : bool :=
   match h with
   | [] => true
   | (o, ob) :: t =>
@@ -63,8 +82,12 @@ Fixpoint check_from (w : world (T:=Qc)) (snap : list (list (vec Qc))) (cls : lis
       | Some w' =>
           let snap' := patch snap (o_changed ob) in
           let cls' := match o_cls ob with Some c => c | None => cls end in
-          agree_coords w' snap' && zl_eqb (classes w') cls' && agree_new w' (o_new ob) && check_from w' snap' cls' t
+          let created := (length (wobjs w) <? length (wobjs w'))%nat in
+          match agree_new w' infos (o_new ob) created with
+          | None => false
+          | Some infos' => agree_coords w' snap' && zl_eqb (classes w') cls' && check_from w' snap' cls' infos' t
+          end
       end
   end.
 
-Definition check_case (h : list (op (T:=Qc) * obs)) : bool := check_from (w0 (T:=Qc)) [] [] h.
+Definition check_case (h : list (op (T:=Qc) * obs)) : bool := check_from (w0 (T:=Qc)) [] [] [] h.
